@@ -26,7 +26,11 @@ CONSTANTS
   Prog,       \* [Clients -> Seq(op)]; op = [op |-> "Add", job |-> 1] ...
   Jobs,       \* set of job ids (positive ints)
   Prio,       \* [Jobs -> Int]
-  QKind,      \* "fifo" | "prio" | "pfifo" | "pprio" (the last two: acknowledging adapter, entries = serialized jobs)
+  QKinds,     \* kinds of the queues in binding order, each "fifo" | "prio" | "pfifo" | "pprio" (the last two: acknowledging
+              \* adapter, entries = serialized jobs; adapter configurations have exactly one queue)
+  QOf,        \* [Jobs -> 1..Len(QKinds)]: the queue a job is submitted to
+  Strategy,   \* "rr" | "max" | "min": how the queue manager chooses among several bound queues
+  NoBind,     \* BOOLEAN: the worker starts unbound (Initiated, nothing spawned); queues are bound by "Bind" ops, in order
   Nodes,      \* set of pool node ids (ints)
   DispSeq,    \* dispatcher ids in allocation order, e.g. <<"disp1", "disp2">>
   PGSeq,      \* pool goroutine ids in allocation order, e.g. <<"pg1", "pg2", "pg3">>
@@ -42,6 +46,9 @@ CONSTANTS
   MaxCrash    \* how many times the process may die (adapter queue kinds only)
 
 STOP == 0
+NQ == Len(QKinds)
+Queues == 1..NQ
+QKind == QKinds[1]
 Adapter == QKind \in {"pfifo", "pprio"}
 Batches == ({BatchOf[j] : j \in Jobs} \cup UNION {{Prog[c][i].n : i \in {k \in DOMAIN Prog[c] : Prog[c][k].op = "AddAll"}} : c \in Clients}) \ {0}
 ItemsOf(b) == {j \in Jobs : BatchOf[j] = b}
@@ -65,7 +72,8 @@ VARIABLES
    sigTok    generation -> 0..1 tokens buffered;  sigClosed: generation -> BOOLEAN
    lc        holder of the lifecycle mutex (Stop / Restart)
    mx        holder of w.mx ("none" or a process);  cond: processes parked in Cond.Wait
-   q         queue contents Seq(job);  qclosed
+   q         queue -> contents Seq(job);  qclosed: queue -> BOOLEAN;  nreg: queues registered with the manager (1..nreg);
+   rr        the manager's round-robin cursor (0-based index of the queue to look at next)
    idle      idle list Seq(node);  nch: node -> Seq(payload), capacity 1;  cache: nodes in sync.Pool;  used: nodes created
    bhd       batches whose handle a client holds;  gcount: batch -> WgCounter.count;  gwg: batch -> its WaitGroup;  gclosed: batch -> number of times its stream was closed
    rsent     single jobs whose Response holds an unread value;  rclosed: single jobs whose Response is closed
@@ -85,7 +93,7 @@ Max(X) == CHOOSE x \in X : \A y \in X : y <= x
 Last(s) == s[Len(s)]
 Front(s) == SubSeq(s, 1, Len(s) - 1)
 Range(s) == {s[i] : i \in DOMAIN s}
-NoLoc == [j |-> 0, n |-> 0, node |-> 0, ok |-> TRUE, g |-> 0, snap |-> <<>>, jobs |-> <<>>, old |-> 0, shrink |-> 0,
+NoLoc == [j |-> 0, n |-> 0, k |-> 0, node |-> 0, ok |-> TRUE, g |-> 0, snap |-> <<>>, jobs |-> <<>>, old |-> 0, shrink |-> 0,
           wsnap |-> {}, clean |-> FALSE, solo |-> FALSE, tok |-> 0, cnt |-> 0, res |-> "nil"]
 
 pc == S.pc
@@ -94,12 +102,32 @@ HasOp(c) == S.ip[c] <= Len(Prog[c])
 
 \* queue order: fifo appends; prio keeps the sequence sorted by (priority, insertion)
 Enq(s, j) ==
-  IF QKind \in {"fifo", "pfifo"} THEN Append(s, j)
+  IF QKinds[QOf[j]] \in {"fifo", "pfifo"} THEN Append(s, j)
   ELSE LET k == Cardinality({i \in DOMAIN s : Prio[s[i]] <= Prio[j]})
        IN SubSeq(s, 1, k) \o <<j>> \o SubSeq(s, k + 1, Len(s))
 
+\* Manager.Len(): the sum over the registered queues (jobs can only be in registered queues)
+QTotOf(s) == LET F[k \in 0..NQ] == IF k = 0 THEN 0 ELSE F[k - 1] + Len(s.q[k]) IN F[NQ]
+QTot == QTotOf(S)
+\* queueManager.next(): <<chosen queue (0: ErrAllItemsEmpty / ErrNoItemsRegistered), new round-robin cursor>>
+\*  rr : from the cursor on, cyclically, the first non-empty queue; the cursor moves behind it (it ends where it started if all are empty)
+\*  max: the first queue of maximal length;  min: the first non-empty queue of minimal length
+PickQ(s) ==
+  LET n == s.nreg
+      ne == {k \in 1..n : Len(s.q[k]) > 0}
+  IN IF ne = {} THEN <<0, s.rr>>
+     ELSE CASE Strategy = "rr" ->
+                 LET vis == [i \in 1..n |-> ((s.rr + i - 1) % n) + 1]
+                     i0 == CHOOSE i \in 1..n : vis[i] \in ne /\ \A i2 \in 1..n : vis[i2] \in ne => i <= i2
+                 IN <<vis[i0], vis[i0] % n>>
+            [] Strategy = "max" ->
+                 <<CHOOSE k \in ne : \A k2 \in ne : Len(s.q[k2]) < Len(s.q[k]) \/ (Len(s.q[k2]) = Len(s.q[k]) /\ k <= k2), s.rr>>
+            [] OTHER ->
+                 <<CHOOSE k \in ne : \A k2 \in ne : Len(s.q[k2]) > Len(s.q[k]) \/ (Len(s.q[k2]) = Len(s.q[k]) /\ k <= k2), s.rr>>
+\* the queue an op names (Purge, QClose): its n field, 0 meaning the first queue
+QIdx(o) == IF o.n = 0 THEN 1 ELSE o.n
 MinIdle == IF Ratio = 0 THEN 1 ELSE Max({(S.conc * Ratio) \div 100, 1})
-WaitCond == CASE S.ws = "running" -> Len(S.q) > 0 \/ S.cur > 0
+WaitCond == CASE S.ws = "running" -> QTot > 0 \/ S.cur > 0
               [] S.ws \in {"paused", "stopped"} -> S.cur > 0
               [] OTHER -> FALSE
 MxFree == S.mx = "none"
@@ -112,17 +140,19 @@ NotifyS(s) == IF s.chanNil \/ s.sigClosed[s.gen] THEN s
               ELSE s
 
 Init ==
-  /\ S = [ws |-> "running", cur |-> 0, conc |-> Conc0, gen |-> 0, chanNil |-> FALSE,
-          sigTok |-> [g \in Gens |-> IF g = 0 THEN 1 ELSE 0],     \* start()'s deferred notify
+  /\ S = [ws |-> IF NoBind THEN "initiated" ELSE "running", cur |-> 0, conc |-> Conc0, gen |-> 0, chanNil |-> FALSE,
+          sigTok |-> [g \in Gens |-> IF g = 0 /\ ~NoBind THEN 1 ELSE 0],     \* start()'s deferred notify
           sigClosed |-> [g \in Gens |-> FALSE],
-          mx |-> "none", lc |-> "none", cond |-> {}, q |-> <<>>, qclosed |-> FALSE,
-          idle |-> <<1>>, nch |-> [n \in Nodes |-> <<>>], cache |-> {}, used |-> {1},
+          mx |-> "none", lc |-> "none", cond |-> {}, q |-> [k \in Queues |-> <<>>], qclosed |-> [k \in Queues |-> FALSE],
+          nreg |-> IF NoBind THEN 0 ELSE NQ, rr |-> 0,
+          idle |-> IF NoBind THEN <<>> ELSE <<1>>, nch |-> [n \in Nodes |-> <<>>], cache |-> {}, used |-> IF NoBind THEN {} ELSE {1},
           jst |-> [j \in Jobs |-> "created"], jwg |-> [j \in Jobs |-> 1], hd |-> {}, nohd |-> {}, bhd |-> {},
           gcount |-> [b \in Batches |-> 0], gwg |-> [b \in Batches |-> 0], gclosed |-> [b \in Batches |-> 0], rsent |-> {}, rclosed |-> {},
           unacked |-> {}, acked |-> {}, nack |-> 0, calls |-> [enq |-> 0, deq |-> 0, ack |-> 0], badack |-> 0, crashes |-> 0,
           msub |-> 0, mcomp |-> 0, msucc |-> 0, mfail |-> 0,
-          ctxGen |-> 0, ctxCanc |-> {}, pcancel |-> FALSE, tick |-> IF Expiry THEN {0} ELSE {},
+          ctxGen |-> 0, ctxCanc |-> {}, pcancel |-> FALSE, tick |-> IF Expiry /\ ~NoBind THEN {0} ELSE {},
           pc |-> [p \in Procs |-> IF p \in Clients THEN "call"
+                                  ELSE IF NoBind THEN "unborn"
                                   ELSE IF p = "disp1" THEN "loop.start"
                                   ELSE IF p = "pg1" THEN "recv"
                                   ELSE IF p = "reap1" /\ Expiry THEN "reap.wait"
@@ -130,14 +160,14 @@ Init ==
                                   ELSE "unborn"],
           stk |-> [p \in Procs |-> <<>>],
           ip |-> [c \in Clients |-> 1],
-          loc |-> [p \in Procs |-> IF p = "pg1" THEN [NoLoc EXCEPT !.node = 1] ELSE NoLoc]]
+          loc |-> [p \in Procs |-> IF p = "pg1" /\ ~NoBind THEN [NoLoc EXCEPT !.node = 1] ELSE NoLoc]]
   /\ H = [enters |-> [j \in Jobs |-> 0], exits |-> [j \in Jobs |-> 0], accepted |-> {}, rejected |-> {}, cancelNil |-> {},
           closeStarted |-> {}, purged |-> {}, concMax |-> Conc0, epoch |-> "open", pauseStarts |-> 0, ctl |-> 0, viol |-> {}]
 
 -----------------------------------------------------------------------------
 (* Helpers: finishing a client op, returning from a sub-procedure, history *)
 
-CtlOps == {"Pause", "PauseAndWait", "Resume", "Stop", "WaitAndStop", "Restart", "CancelCtx"}
+CtlOps == {"Pause", "PauseAndWait", "Resume", "Stop", "WaitAndStop", "Restart", "CancelCtx", "Bind"}
 Inflight == {j \in Jobs : H.enters[j] > H.exits[j]}
 Settled(j) == H.exits[j] >= 1 \/ j \in H.closeStarted \/ j \in H.purged \/ j \in H.rejected
 
@@ -209,14 +239,14 @@ CT_RespClose(p) ==
 \* [changeStatus(queued); Enqueue] of one job (Add, or one item of AddAll)
 EnqStep(s, c, j) ==
   IF Adapter
-    THEN (IF s.qclosed \/ <<"enq", s.calls.enq>> \in Faults
+    THEN (IF s.qclosed[QOf[j]] \/ <<"enq", s.calls.enq>> \in Faults
             THEN [s EXCEPT !.calls.enq = @ + 1, !.pc[c] = "add.enq", !.loc[c].ok = FALSE, !.loc[c].j = j]
-            ELSE [s EXCEPT !.calls.enq = @ + 1, !.q = Enq(@, j), !.pc[c] = "add.enq", !.loc[c].ok = TRUE, !.loc[c].j = j])
-  ELSE IF s.qclosed
+            ELSE [s EXCEPT !.calls.enq = @ + 1, !.q[QOf[j]] = Enq(@, j), !.pc[c] = "add.enq", !.loc[c].ok = TRUE, !.loc[c].j = j])
+  ELSE IF s.qclosed[QOf[j]]
     THEN [s EXCEPT !.jst[j] = "queued", !.pc[c] = "add.enq", !.loc[c].ok = FALSE, !.loc[c].j = j]
-    ELSE [s EXCEPT !.jst[j] = "queued", !.q = Enq(@, j), !.pc[c] = "add.enq", !.loc[c].ok = TRUE, !.loc[c].j = j]
+    ELSE [s EXCEPT !.jst[j] = "queued", !.q[QOf[j]] = Enq(@, j), !.pc[c] = "add.enq", !.loc[c].ok = TRUE, !.loc[c].j = j]
 C_Add(c) ==
-  /\ AtCall(c, "Add")
+  /\ AtCall(c, "Add") /\ QOf[Op(c).job] <= S.nreg
   /\ S' = EnqStep(S, c, Op(c).job)
   /\ UNCHANGED H
 
@@ -224,7 +254,7 @@ C_Add(c) ==
 SeqOfSet(X) == LET F[k \in 0..Cardinality(X)] == IF k = 0 THEN <<>> ELSE LET m == CHOOSE x \in X : Cardinality({y \in X : y < x}) = k - 1 IN Append(F[k - 1], m)
                IN F[Cardinality(X)]
 C_AddAll(c) ==
-  /\ AtCall(c, "AddAll")
+  /\ AtCall(c, "AddAll") /\ \A j \in ItemsOf(Op(c).n) : QOf[j] <= S.nreg
   /\ LET b == Op(c).n  items == SeqOfSet(ItemsOf(b))
          s1 == [S EXCEPT !.gcount[b] = Len(items), !.gwg[b] = Len(items), !.gclosed[b] = 0,
                          !.loc[c].jobs = items, !.loc[c].snap = <<>>, !.pc[c] = "i.addall"] IN
@@ -242,7 +272,7 @@ I_AddAllNext(c) ==
 \* rejected: j.Close() = markClosed, (hook), then the close effect
 C_AddRejected(c) ==
   /\ c \in Clients /\ S.pc[c] = "add.enq" /\ ~S.loc[c].ok
-  /\ IF QKind = "pprio" THEN S' = Fin(S, c) /\ H' = HFin(c, "rej")         \* nothing to close, the job object is local
+  /\ IF QKinds[QOf[S.loc[c].j]] = "pprio" THEN S' = Fin(S, c) /\ H' = HFin(c, "rej")         \* nothing to close, the job object is local
      ELSE S' = [S EXCEPT !.jst[S.loc[c].j] = IF Adapter THEN @ ELSE "closed", !.pc[c] = "jclose.marked"] /\ UNCHANGED H
 
 \* accepted: incSubmitted, notify (RLock), return (or the next item)
@@ -253,6 +283,24 @@ C_AddNotify(c) ==
             /\ UNCHANGED H
        ELSE /\ S' = Fin(NotifyS([S EXCEPT !.msub = @ + 1, !.hd = IF Adapter THEN @ ELSE @ \cup {S.loc[c].j}]), c)
             /\ H' = HFin(c, "ok")
+
+\* a submission to a queue that is not bound yet: there is no queue object, nothing is called
+C_NoQueue(c) ==
+  /\ AtCall(c, "Add") /\ QOf[Op(c).job] > S.nreg
+  /\ S' = Fin([S EXCEPT !.nohd = @ \cup {Op(c).job}], c)
+  /\ H' = H
+
+\* binding a queue (the first one starts the worker): Register appends to the manager's list, then the deferred start(),
+\* which only starts a worker that was never started (or was reset by Restart) - binding never changes any other state
+C_Bind(c) ==
+  /\ AtCall(c, "Bind") /\ S.nreg < NQ
+  /\ S' = [Dirty(S) EXCEPT !.pc[c] = "mgr.register"]
+  /\ H' = [H EXCEPT !.ctl = @ + 1]
+B_Reg(c) ==
+  /\ c \in Clients /\ S.pc[c] = "mgr.register"
+  /\ LET s1 == [S EXCEPT !.nreg = @ + 1] IN
+       IF S.ws # "initiated" THEN S' = Fin(s1, c) /\ H' = HFin(c, "nil")
+       ELSE S' = [s1 EXCEPT !.pc[c] = "start.enter"] /\ UNCHANGED H
 
 \* an op on the handle of a job whose Add was rejected: there is no handle, nothing is called
 C_NoHandle(c) ==
@@ -300,7 +348,8 @@ C_BatchRead(c) ==
 
 C_QClose(c) ==
   /\ AtCall(c, "QClose")
-  /\ S' = Fin([S EXCEPT !.qclosed = TRUE], c)
+  /\ QIdx(Op(c)) <= S.nreg
+  /\ S' = Fin([S EXCEPT !.qclosed[QIdx(Op(c))] = TRUE], c)
   /\ H' = HFin(c, "nil")
 
 ---- \* WaitUntilFinished (as an op, and as the body of PauseAndWait / Stop / WaitAndStop / Restart)
@@ -409,15 +458,15 @@ T_Stop(p) ==
 
 ---- \* Purge of an in-memory queue: dequeue at most Len() jobs, closing each
 C_Purge(c) ==
-  /\ AtCall(c, "Purge")
-  /\ S' = [S EXCEPT !.loc[c].n = Len(S.q), !.pc[c] = "i.purge.loop"]
+  /\ AtCall(c, "Purge") /\ QIdx(Op(c)) <= S.nreg
+  /\ S' = [S EXCEPT !.loc[c].n = Len(S.q[QIdx(Op(c))]), !.loc[c].k = QIdx(Op(c)), !.pc[c] = "i.purge.loop"]
   /\ UNCHANGED H
 U_Deq(p) ==
   /\ S.pc[p] = "i.purge.loop"
   /\ IF S.loc[p].n = 0 THEN S' = Fin(S, p) /\ H' = HFin(p, "nil")
-     ELSE IF S.q = <<>> THEN S' = [S EXCEPT !.loc[p].ok = FALSE, !.pc[p] = "purge.deq"] /\ UNCHANGED H
-     ELSE /\ S' = [S EXCEPT !.loc[p].j = Head(S.q), !.q = Tail(@), !.loc[p].n = @ - 1, !.loc[p].ok = TRUE, !.pc[p] = "purge.deq"]
-          /\ H' = [H EXCEPT !.purged = @ \cup {Head(S.q)}]
+     ELSE IF S.q[S.loc[p].k] = <<>> THEN S' = [S EXCEPT !.loc[p].ok = FALSE, !.pc[p] = "purge.deq"] /\ UNCHANGED H
+     ELSE /\ S' = [S EXCEPT !.loc[p].j = Head(S.q[S.loc[p].k]), !.q[S.loc[p].k] = Tail(@), !.loc[p].n = @ - 1, !.loc[p].ok = TRUE, !.pc[p] = "purge.deq"]
+          /\ H' = [H EXCEPT !.purged = @ \cup {Head(S.q[S.loc[p].k])}]
 U_Close(p) ==
   /\ S.pc[p] = "purge.deq"
   /\ IF ~S.loc[p].ok THEN S' = Fin(S, p) /\ H' = HFin(p, "nil")
@@ -626,7 +675,7 @@ RP_Cont(r) ==
    loc.n = the value passed; the label to continue at is on top of the stack. *)
 Rel_Eval(p) ==
   /\ S.pc[p] = "rel.enter"
-  /\ S' = IF S.loc[p].n = 0 /\ (S.ws \in {"paused", "stopped"} \/ (S.ws = "running" /\ Len(S.q) = 0))
+  /\ S' = IF S.loc[p].n = 0 /\ (S.ws \in {"paused", "stopped"} \/ (S.ws = "running" /\ QTot = 0))
             THEN [S EXCEPT !.pc[p] = "rel.bcast"]
             ELSE [S EXCEPT !.pc[p] = Head(S.stk[p]), !.stk[p] = Tail(@)]
   /\ UNCHANGED H
@@ -667,7 +716,7 @@ D_Check(d) ==
   /\ UNCHANGED H
 D_Check2(d) ==
   /\ d \in Disps /\ S.pc[d] = "i.loop.lock" /\ MxFree
-  /\ S' = IF ~S.chanNil /\ S.gen = S.loc[d].g /\ S.cur < S.conc /\ Len(S.q) > 0
+  /\ S' = IF ~S.chanNil /\ S.gen = S.loc[d].g /\ S.cur < S.conc /\ QTot > 0
             THEN [S EXCEPT !.pc[d] = "loop.pass"]
             ELSE [S EXCEPT !.loc[d].n = S.cur, !.pc[d] = "rel.enter", !.stk[d] = <<"loop.idle">>]
   /\ UNCHANGED H
@@ -687,15 +736,17 @@ D_Recheck(d) ==
 D_Deq(d) ==
   /\ d \in Disps /\ S.pc[d] = "i.disp.lock" /\ MxFree
   /\ S' = IF S.chanNil \/ S.gen # S.loc[d].g THEN BackOut(d, "handover")
-          \* nothing to take (somebody else took it) or the adapter refuses: Dequeue reports failure (loc.j = 0)
-          ELSE IF Len(S.q) = 0 THEN [S EXCEPT !.loc[d].j = 0, !.pc[d] = "disp.deq"]
+          \* next(): every registered queue is empty (somebody else took the job): ErrGetNextQueue, the slot is given back at once
+          ELSE IF PickQ(S)[1] = 0 THEN BackOut(d, "nil")
+          \* the adapter refuses: Dequeue reports failure (loc.j = 0)
           ELSE IF Adapter /\ <<"deq", S.calls.deq>> \in Faults THEN [S EXCEPT !.loc[d].j = 0, !.calls.deq = @ + 1, !.pc[d] = "disp.deq"]
-          ELSE IF Adapter
+          ELSE LET k == PickQ(S)[1]  j == Head(S.q[k]) IN
+            IF Adapter
             THEN \* DequeueWithAckId: the entry stays with the adapter as delivered-unacknowledged; the parsed job is a new object
-                 [S EXCEPT !.loc[d].j = Head(S.q), !.q = Tail(@), !.calls.deq = @ + 1, !.nack = @ + 1,
-                           !.unacked = @ \cup {<<S.nack + 1, Head(S.q)>>}, !.loc[d].old = S.nack + 1,
-                           !.jst[Head(S.q)] = "created", !.jwg[Head(S.q)] = 1, !.pc[d] = "disp.deq"]
-          ELSE [S EXCEPT !.loc[d].j = Head(S.q), !.q = Tail(@), !.pc[d] = "disp.deq"]
+                 [S EXCEPT !.loc[d].j = j, !.q[k] = Tail(@), !.rr = PickQ(S)[2], !.calls.deq = @ + 1, !.nack = @ + 1,
+                           !.unacked = @ \cup {<<S.nack + 1, j>>}, !.loc[d].old = S.nack + 1,
+                           !.jst[j] = "created", !.jwg[j] = 1, !.pc[d] = "disp.deq"]
+            ELSE [S EXCEPT !.loc[d].j = j, !.q[k] = Tail(@), !.rr = PickQ(S)[2], !.loc[d].k = k, !.pc[d] = "disp.deq"]
   /\ UNCHANGED H
 D_HandOver(d) ==
   /\ d \in Disps /\ S.pc[d] = "disp.release" /\ S.loc[d].res = "handover" /\ MxFree
@@ -786,7 +837,7 @@ S_Close(g) ==
 S_Free(g) ==
   /\ g \in PGs /\ S.pc[g] = "serve.closed"
   /\ LET n == S.loc[g].node IN
-       S' = IF Len(S.q) >= S.conc \/ Expiry \/ Len(S.idle) < MinIdle
+       S' = IF QTot >= S.conc \/ Expiry \/ Len(S.idle) < MinIdle
               THEN [S EXCEPT !.idle = Append(@, n), !.pc[g] = "serve.freed"]
               ELSE [S EXCEPT !.nch[n] = Append(@, STOP), !.cache = @ \cup {n}, !.pc[g] = "serve.freed"]
   /\ UNCHANGED H
@@ -808,7 +859,7 @@ Crash ==
   /\ Adapter /\ S.crashes < MaxCrash
   /\ S' = [S EXCEPT !.ws = "running", !.cur = 0, !.conc = Conc0, !.gen = 0, !.chanNil = FALSE,
                     !.sigTok = [g \in Gens |-> IF g = 0 THEN 1 ELSE 0], !.sigClosed = [g \in Gens |-> FALSE],
-                    !.mx = "none", !.lc = "none", !.cond = {}, !.q = Redeliver \o S.q, !.unacked = {}, !.qclosed = FALSE,
+                    !.mx = "none", !.lc = "none", !.cond = {}, !.q = [S.q EXCEPT ![1] = Redeliver \o @], !.unacked = {}, !.qclosed = [k \in Queues |-> FALSE], !.rr = 0,
                     !.idle = <<1>>, !.nch = [n \in Nodes |-> <<>>], !.cache = {}, !.used = {1},
                     !.msub = 0, !.mcomp = 0, !.msucc = 0, !.mfail = 0, !.tick = IF Expiry THEN {0} ELSE {},
                     !.pc = [p \in Procs |-> IF p \in Clients THEN "done" ELSE IF p = DispSeq[1] THEN "loop.start" ELSE IF p = PGSeq[1] THEN "recv"
@@ -821,7 +872,7 @@ Crash ==
 ClientStep(c) == C_Add(c) \/ C_AddRejected(c) \/ C_AddNotify(c) \/ C_Close(c) \/ C_Wait(c) \/ C_QClose(c)
                  \/ C_WUF(c) \/ C_Pause(c) \/ C_Resume(c) \/ C_Tune(c) \/ C_Purge(c) \/ C_Stop(c) \/ C_WaitAndStop(c)
                  \/ C_Restart(c) \/ C_CancelCtx(c) \/ C_Nop(c) \/ C_NoHandle(c) \/ C_AddAll(c) \/ I_AddAllNext(c)
-                 \/ C_Result(c) \/ C_BatchWait(c) \/ C_BatchRead(c)
+                 \/ C_Result(c) \/ C_BatchWait(c) \/ C_BatchRead(c) \/ C_NoQueue(c) \/ C_Bind(c) \/ B_Reg(c)
 \* steps of sub-procedures that clients and the context listener share
 SubStep(p) == CT_Marked(p) \/ CT_Wgc(p) \/ CT_RespClose(p) \/ LC_Switch(p) \/ T_Store(p) \/ I_Wuf(p) \/ W_Cond(p) \/ W_Park(p) \/ W_Wake(p) \/ I_Pause(p) \/ P_Store(p) \/ P_Retry(p) \/ R_Store(p) \/ R_Retry(p) \/ I_Resume(p) \/ R_Notify(p)
               \/ T_After(p) \/ T_Loop(p) \/ T_Stop(p) \/ U_Deq(p) \/ U_Close(p)
